@@ -33,7 +33,7 @@ def judge(ctx, name, tr, decimals, acc):
         ctx.cov["samples"] += [{k: ev[len(ev) // 2][k] for k in ("p", "px1", "px2", "d", "f1", "f2", "q1", "q2")}]
     for f in fails:
         e = ev[f["i"] - 1]
-        ctx.report(classify(e, f["mon"], cls.get(f["i"])),
+        ctx.report(dict(classify(e, f["mon"], cls.get(f["i"])), conforms=f.get("conforms", True)),
                    {"driver": "h-model c11 replay", "decimals": decimals, "cases": [case_of(e)], "source": name, "event": e})
     return ev
 
